@@ -26,6 +26,9 @@ SELECT_OK = [S("eos"), S("hdr", "eos"), S("hdr", "data", "end", "eos"), S("hdr",
              S("data", "totals", "end", "eos"), S("prog", "eos"), S("prog", "profile", "tcols", "eos"),
              S(P("log", 2), "eos"), S("hdr", P("pevents", 2), "data", "eos"),
              S("hdr", "prog", "data", P("log", 1), "prog", "data", "totals", "end", "profile", "eos")]
+# Progress packets of every shape (N: 1 write-side counters only, 2 elapsed time only, 3 all zero)
+SELECT_OK += [S("hdr", P("prog", 1), "data", P("prog", 3), P("prog", 2), "eos"), S(P("prog", 3), P("prog", 3), "eos"),
+              S(P("prog", 2), "hdr", "prog", P("prog", 1), "eos")]
 SELECT_EXC = [S("exc"), S("hdr", "exc"), S("hdr", "prog", "exc"), S("hdr", "data", "exc"), S("prog", "data", "exc")]
 SELECT_FAULT = [S(), S("bad"), S("pong"), S("cut"), S("hdr", "trunc"), S("hdr", "garbage"), S("data", "cut"),
                 S("eosEarly"), S("hdr", "data", "bad"), S("prog", "pong")]
